@@ -22,6 +22,8 @@ ACCESSORS = {'year': 'Datelike', 'month': 'Datelike', 'day': 'Datelike', 'hour':
 def classify_rotation_atom(a, v, info, self_name='self'):
     """maps an atom of the rotation decision onto the vocabulary of the oracle"""
     k = info.get('kind')
+    if k == 'variant' and T.strip_refs(info.get('of')) == ('in', 'force'):
+        return ('trigger', v)           # the trigger as a private enum instead of a bool flag
     if k == 'variant':
         ch = T.field_chain(info['of'])
         if info.get('ty') == ROLL:
@@ -45,10 +47,12 @@ def classify_rotation_atom(a, v, info, self_name='self'):
                 if len(nows) == 1 and len(cre) == 1:
                     return ('d_' + m.group(2), v != 'eq')
         return None
+    if k == 'variant' and T.strip_refs(info.get('of')) == ('in', 'force'):
+        return ('trigger', v)           # the trigger as a private enum instead of a bool flag
     if k in ('bool', 'switch'):
         x = T.strip_refs(info.get('x'))
         if x == ('in', 'force'):
-            return ('force', bool(v) if not isinstance(v, str) else v != '0')
+            return ('trigger', bool(v) if not isinstance(v, str) else v != '0')
         if isinstance(x, tuple) and x[0] in ('call', 'eff') and x[1].endswith('RollState::rotation_necessary'):
             return ('necessary', bool(v) if not isinstance(v, str) else v != '0')
     return None
@@ -143,6 +147,23 @@ def find_sink(ctx):
     return out[0]
 
 
+def sink_trigger_value(ctx):
+    """the value the record sink hands to the rotation function as its trigger argument (false / a variant of a private enum)"""
+    f = ctx.f
+    sb, _ = find_sink(ctx)
+    MN = r'State::mount_next_linewriter_if_necessary$'
+    rows = FDI(f, effects=[MN], no_inline=[MN, r'State::initialize$', r'util::eprint_err$']).run(sb.path)
+    vals = set()
+    for r in rows:
+        for e in r.effects:
+            if re.search(MN, e[0]):
+                x = e[2]['x'][1]
+                vals.add(x[1] if x[0] == 'const' else x[2] if x[0] == 'agg' else repr(x))
+    if len(vals) != 1:
+        raise CheckError(f"the record sink passes {sorted(map(str, vals))} as rotation trigger (expected one constant)")
+    return next(iter(vals))
+
+
 def mount_guard(R, ctx, rule):
     """in the rotation function the rotation is guarded by exactly force || rotation_necessary()"""
     f = ctx.f
@@ -154,8 +175,10 @@ def mount_guard(R, ctx, rule):
                                        r'timestamps::creation_timestamp_of_currentfile$', r'collision_free_infix_for_rotated_file$',
                                        r'timestamps::infix_from_timestamp$', r'numbers::number_infix$', r'reset_size_and_date$',
                                        r'remove_or_compress_too_old_logfiles$', r'infix_filter$', r'writes_direct$'], loop_k=1)
-    rows = I.run(b.path)
+    rows = I.run(b.path, arg_names=['self', 'force'])
     n_ok = 0
+    sink_val = sink_trigger_value(ctx)
+    seen_trig = set()
     for r in rows:
         if r.undecided:
             R.bad(rule, f"{b.path}|guard|undecided", f"rotation guard could not be decided: {r.undecided}", where=b.loc())
@@ -167,16 +190,22 @@ def mount_guard(R, ctx, rule):
                 env[c[0]] = c[1]
         rotates = any(not e[0].endswith('rotation_necessary') for e in r.effects)
         active_rot = r.get('variant(self.inner)') == 'Active' and r.get('variant(self.inner.0)') == 'Some'
+        # the value the record sink passes means "rotate if the criterion is met"; every other value is an explicit request
+        trig = env.get('trigger')
+        forced = None if trig is None else (str(trig) != str(sink_val))
+        seen_trig.add(forced)
         if not active_rot:
             exp = False
         else:
-            exp = T.or3(env.get('force'), env.get('necessary'))
+            exp = T.or3(forced, env.get('necessary'))
         if exp is None or exp != rotates:
-            R.bad(rule, f"{b.path}|guard", f"rotation is carried out = {rotates} although force={env.get('force')} rotation_necessary={env.get('necessary')} "
-                  f"(documented: rotate iff forced or the criterion is met, and only with an active rotation state)", where=b.loc(),
+            R.bad(rule, f"{b.path}|guard", f"rotation is carried out = {rotates} although trigger={trig} (the record sink passes {sink_val}) rotation_necessary={env.get('necessary')} "
+                  f"(documented: rotate iff explicitly requested or the criterion is met, and only with an active rotation state)", where=b.loc(),
                   witness=f"row {r.cond}")
             return
         n_ok += 1
+    if not {True, False} <= seen_trig:
+        raise CheckError(f"{rule}: the rotation trigger parameter was not recognised on the rows (seen {seen_trig})")
     R.ok(rule, f"{b.path}|guard", f"{n_ok} rows: a new file is opened iff (force or rotation_necessary()) in the active rotating state",
          sample={'rows': n_ok, 'fn': b.path})
 
